@@ -11,6 +11,7 @@
 #include "vlog.hpp"
 
 #include <atomic>
+#include <cstring>
 #include <chrono>
 #include <functional>
 #include <optional>
@@ -57,6 +58,16 @@ struct world
         }
     }
 };
+
+// st.rs.deq fires under the stop state's lock right after request_stop has taken a callback off the list; its
+// first argument says whether the entry is already marked as removed.  That mark is what ~stop_callback reads
+// under the same lock to decide between "unlink and return" and "wait for the running callback", so it must be
+// set before the lock is released (StopStateImpl: RLoop clears `linked` while holding the lock).
+static void monitor_hook(char const* site, void const* obj, std::uint64_t a, std::uint64_t b) noexcept
+{
+    if (a == 0 && std::strcmp(site, "st.rs.deq") == 0) ev("unmarked_dequeue").done();
+    vctl::perturb(site, obj, a, b);
+}
 
 static void call(int a, char const* op, int h, int g, int c)
 {
@@ -319,6 +330,7 @@ int main(int argc, char** argv)
     vlog::init(path);
     vlog::start_watchdog(120000);
     if (perturb) vctl::install(seed, 40, 100, 250, "st.");
+    pika::verif::exchange_hook(&monitor_hook);
 
     std::vector<char*> av;
     av.push_back(argv[0]);
